@@ -318,8 +318,8 @@ impl Restorer {
             Some(header.mode()?)
         };
 
-        let mtime = header.mtime()?.try_into().map_err(|e| map_err(
-            header, "file modification time", e))?;
+        // Modification times before the epoch are stored by tar as two's complement u64
+        let mtime = header.mtime()? as i64;
 
         Ok(FileMetadata {owner, mode, mtime})
     }
